@@ -455,6 +455,9 @@ func (f *Flow) runOne(fr *Frame, st0 string) []string {
 					}
 				}
 				efacts := e.facts
+				if f.TrackBoolReturns {
+					efacts = phiValueFacts(e.facts, b, succ, fn)
+				}
 				for _, x := range succ.Instrs {
 					// which alternative of a function-valued phi this path selects (run := dsc.loop;
 					// if untimed { run = dsc.loopUntimeouted }; run())
@@ -834,6 +837,13 @@ func (f *Flow) sawState(s string) bool { return f.Seen[s] }
 // callResultOf: v is the value (or extracted component) of a call made in fn.
 func callResultOf(v ssa.Value, fn *ssa.Function) (id string, idx int, ok bool) {
 	switch x := v.(type) {
+	case *ssa.Phi:
+		// a boolean / error variable assigned from calls on several paths (proceed, err :=
+		// calc(); for err == nil && !proceed { ...; proceed, err = calc() }): what is known about
+		// it is what was known about the value that came in over the edge taken (phiValueFacts)
+		if x.Parent() == fn {
+			return "vphi" + instrID(x), 0, true
+		}
 	case *ssa.Call:
 		if x.Parent() == fn {
 			return instrID(x), 0, true
@@ -844,4 +854,54 @@ func callResultOf(v ssa.Value, fn *ssa.Function) (id string, idx int, ok bool) {
 		}
 	}
 	return "", 0, false
+}
+
+// phiValueFacts: facts about the boolean / error phis of succ when it is entered from b - the
+// constant that comes in over this edge, or what is known about the call result (or earlier phi)
+// that does. All phis of a block are assigned at once, from the facts before the edge.
+func phiValueFacts(facts string, b, succ *ssa.BasicBlock, fn *ssa.Function) string {
+	pi, cnt := -1, 0
+	for k, pb := range succ.Preds {
+		if pb == b {
+			pi = k
+			cnt++
+		}
+	}
+	type upd struct{ id, val string }
+	var upds []upd
+	for _, x := range succ.Instrs {
+		ph, isPhi := x.(*ssa.Phi)
+		if !isPhi {
+			break
+		}
+		isBool := false
+		if bt, ok := ph.Type().Underlying().(*types.Basic); ok && bt.Kind() == types.Bool {
+			isBool = true
+		}
+		if !isBool && typeShort(ph.Type()) != "error" {
+			continue
+		}
+		val := ""
+		if cnt == 1 {
+			switch in := ph.Edges[pi].(type) {
+			case *ssa.Const:
+				if in.Value == nil {
+					val = "0=nil"
+				} else if in.Value.Kind() == constant.Bool {
+					val = "0=" + in.Value.ExactString()
+				}
+			default:
+				if id, idx, ok := callResultOf(in, fn); ok {
+					if v, ok := factOf(facts, id, idx); ok {
+						val = "0=" + v
+					}
+				}
+			}
+		}
+		upds = append(upds, upd{"vphi" + instrID(ph), val})
+	}
+	for _, u := range upds {
+		facts = setFacts(facts, u.id, u.val)
+	}
+	return facts
 }
